@@ -166,6 +166,87 @@ func emitBuiltins(b *strings.Builder, name string, t [][4]string) {
 	b.WriteString("]\n\n")
 }
 
+// sprintfFormats: the string-literal first arguments of fmt.Sprintf calls inside function fn of file that contain needle
+func sprintfFormats(file, fn, needle string) []string {
+	f := parse(file)
+	var out []string
+	for _, d := range f.Decls {
+		fd, ok := d.(*ast.FuncDecl)
+		if !ok || fd.Name.Name != fn || fd.Body == nil {
+			continue
+		}
+		ast.Inspect(fd.Body, func(n ast.Node) bool {
+			call, ok := n.(*ast.CallExpr)
+			if !ok || len(call.Args) == 0 {
+				return true
+			}
+			sel, ok := call.Fun.(*ast.SelectorExpr)
+			if !ok || sel.Sel.Name != "Sprintf" {
+				return true
+			}
+			if s, ok := strLit(call.Args[0]); ok && strings.Contains(s, needle) {
+				// the arguments must all be the same expression (the tag)
+				same := true
+				for _, a := range call.Args[2:] {
+					if fmt.Sprint(exprString(a)) != fmt.Sprint(exprString(call.Args[1])) {
+						same = false
+					}
+				}
+				if same {
+					out = append(out, s)
+				}
+			}
+			return true
+		})
+	}
+	return out
+}
+
+func exprString(e ast.Expr) string {
+	switch e := e.(type) {
+	case *ast.Ident:
+		return e.Name
+	case *ast.SelectorExpr:
+		return exprString(e.X) + "." + e.Sel.Name
+	}
+	return fmt.Sprintf("%T@%d", e, e.Pos())
+}
+
+// constString: the value of the string constant / struct field default named name in file
+func constString(file, name string) string {
+	f := parse(file)
+	val := ""
+	ast.Inspect(f, func(n ast.Node) bool {
+		switch n := n.(type) {
+		case *ast.ValueSpec:
+			for i, id := range n.Names {
+				if id.Name == name && i < len(n.Values) {
+					if s, ok := strLit(n.Values[i]); ok {
+						val = s
+					}
+				}
+			}
+		case *ast.KeyValueExpr:
+			if k, ok := n.Key.(*ast.Ident); ok && k.Name == name {
+				if s, ok := strLit(n.Value); ok {
+					val = s
+				}
+			}
+		}
+		return true
+	})
+	return val
+}
+
+func emitHeader(b *strings.Builder, name, doc string, fmts []string) {
+	// exactly one build-constraint format is expected; anything else is emitted as the empty string and fails the theorems
+	v := ""
+	if len(fmts) == 1 {
+		v = fmts[0]
+	}
+	fmt.Fprintf(b, "/-- %s -/\ndef %s : String := %s\n\n", doc, name, leanStr(v))
+}
+
 func main() {
 	repo := flag.String("repo", "/repo", "repository root")
 	out := flag.String("out", "", "output directory (lean/Gengo/Generated)")
@@ -174,6 +255,10 @@ func main() {
 	b.WriteString("/-! GENERATED by /verif/go/extract from /repo's sources on every run – do not edit. -/\nnamespace Gengo.Generated\n\n")
 	emitBuiltins(&b, "builtinsV1", builtins(filepath.Join(*repo, "types/types.go")))
 	emitBuiltins(&b, "builtinsV2", builtins(filepath.Join(*repo, "v2/types/types.go")))
+	emitHeader(&b, "headerFmtV2", "`GoBoilerplate` (v2/execute.go): the format of the build-constraint lines, applied to (buildTag, buildTag)", sprintfFormats(filepath.Join(*repo, "v2/execute.go"), "GoBoilerplate", "build"))
+	emitHeader(&b, "headerFmtDeepcopy", "deepcopy-gen `Packages`: the format of the build-constraint lines, applied to (GeneratedBuildTag, GeneratedBuildTag)", sprintfFormats(filepath.Join(*repo, "examples/deepcopy-gen/generators/deepcopy.go"), "Packages", "build"))
+	fmt.Fprintf(&b, "/-- `gengo.StdBuildTag` (v2/execute.go) -/\ndef stdBuildTagV2 : String := %s\n\n", leanStr(constString(filepath.Join(*repo, "v2/execute.go"), "StdBuildTag")))
+	fmt.Fprintf(&b, "/-- `args.Default().GeneratedBuildTag` (args/args.go) -/\ndef generatedBuildTagV1 : String := %s\n\n", leanStr(constString(filepath.Join(*repo, "args/args.go"), "GeneratedBuildTag")))
 	b.WriteString("end Gengo.Generated\n")
 	must(os.MkdirAll(*out, 0o755))
 	must(os.WriteFile(filepath.Join(*out, "Facts.lean"), []byte(b.String()), 0o644))
